@@ -28,7 +28,7 @@ ASSUMPTIONS = [
 REQUIRED_CLASSES = ["two-or-more-chromosomes", "ends-at-chromosome-end", "starts-at-0-of-next", "empty-chromosome", "prefix-names", "underscore-name",
                     "keep_all", "minus-strand", "boundary-pair"]
 BOUNDS = {"quick": "exhaustive GlobalOffset bijection for every generated genome; 2000 sampled genomes with sizes up to 12",
-          "thorough": "12000 sampled genomes with sizes up to 40"}
+          "thorough": "48000 sampled genomes with sizes up to 40"}
 BUDGET_S = {"quick": 200, "thorough": 1500}
 
 COMP = str.maketrans("ACGTN", "TGCAN")
@@ -406,4 +406,4 @@ def task_sampled(stats, known_open, n, seed, Smax):
 def tasks(tier, seed):
     if tier == "quick":
         return [("task_sampled", dict(n=250, seed=seed * 100 + j, Smax=12)) for j in range(8)]
-    return [("task_sampled", dict(n=750, seed=seed * 100 + j, Smax=40)) for j in range(16)]
+    return [("task_sampled", dict(n=1500, seed=seed * 100 + j, Smax=40)) for j in range(32)]
